@@ -73,7 +73,7 @@ fn semicomplete_family(r: &mut Rng, n: usize) -> Model {
 /// its own input: the answers must still be the single-threaded ones (no
 /// process-wide scratch state). Returns the mismatches found.
 fn concurrent_callers(r: &mut Rng, o: &mut CaseOut, max: usize) -> String {
-    let op = r.below(5);
+    let op = r.below(6);
     let callers = r.range(2, 4);
     let mut inputs: Vec<(Model, Model)> = Vec::new();
     for _ in 0..callers {
@@ -84,7 +84,7 @@ fn concurrent_callers(r: &mut Rng, o: &mut CaseOut, max: usize) -> String {
         let b = gen::random_arcs(r, n2, 0.3);
         inputs.push((a, b));
     }
-    let names = ["complement", "degree_sequence", "union", "is_semicomplete", "AdjacencyMap::union"];
+    let names = ["complement", "degree_sequence", "union", "is_semicomplete", "AdjacencyMap::union", "complete"];
     let bad: Vec<String> = std::thread::scope(|s| {
         let hs: Vec<_> = inputs
             .iter()
@@ -100,6 +100,11 @@ fn concurrent_callers(r: &mut Rng, o: &mut CaseOut, max: usize) -> String {
                             1 => a.degree_sequence().eq((0..ma.n()).map(|v| ma.indeg(v) + ma.outdeg(v))),
                             2 => a.union(&b).arcs().eq(ma.union(mb).arc_list()),
                             3 => a.is_semicomplete() == ma.is_semicomplete(),
+                            5 => {
+                                let n = ma.n();
+                                let c = AdjacencyList::complete(n);
+                                c.order() == n && c.arcs().eq((0..n).flat_map(|u| (0..n).filter(move |&v| v != u).map(move |v| (u, v))))
+                            }
                             _ => xa.union(&xb).arcs().eq(ma.union(mb).arc_list()),
                         };
                         if !ok {
